@@ -561,7 +561,7 @@ class _Scene:
 
 
 _MIXED = [("S", 5, False), ("G", 11, 2, False), ("G", 12, 1, True), ("G", 20, 1, False), ("G", 31, 3, False), ("S", 40, True)]
-_PERMUTED = [("G", 3, 3, False), ("S", 7, False), ("G", 8, 1, False), ("G", 9, 2, False)]
+_PERMUTED = [("G", 3, 3, False), ("S", 7, False), ("G", 8, 1, False), ("G", 9, 2, False), ("G", 10, 2, False), ("G", 14, 3, False), ("G", 16, 1, False)]
 _ALL_RECT = [("G", 4, 1, False), ("G", 6, 1, False), ("S", 2, True), ("G", 15, 1, False)]
 _OFF_AXIS = [(1, 0, 0), (-1, 0, 0), (0, 1, 0), (0, -1, 0), (1, 1, 0), (1, -1, 0), (-1, 1, 0), (-1, -1, 0), (-1, 0, 2), (0, -1, -3),
              (1, 0, -1), (0, 2, -2), (3, -3, 1), (-3, 4, -5), (3, 4, 5), (Fraction(1, 1000), 0, 0), (0, Fraction(-1, 1000), 0),
